@@ -16,6 +16,28 @@ def run(tier, seed, vh, only_paths=None, mode=None):
     run = scratch_dir("view-%s-%d" % (tier, seed))
     res = {"family": "view", "tier": tier, "seed": seed, "mc": {"states": 0, "transitions": 0}}
     if only_paths is None:
+        # unbounded CAS values, versions and steps: Apalache discharges that ViewInductive!IndInv is an inductive invariant
+        # and implies the property; the same step check must FAIL when the clock does not learn of a caller-chosen CAS
+        apa = {}
+        adir = os.path.join(SPEC, "apalache")
+        for nm, args in (("base", ["--init=Init", "--inv=IndInv", "--length=0"]), ("step", ["--init=IndInit", "--inv=IndInv", "--length=1"]),
+                         ("implies", ["--init=IndInit", "--inv=UpToDateIsExact", "--length=0"])):
+            rc3, out3 = sh(["apalache-mc", "check"] + args + ["--out-dir=" + os.path.join(run, "apalache_" + nm), "ViewInductive.tla"], timeout=300, cwd=adir)
+            apa[nm] = "EXITCODE: OK" in out3 and "The outcome is: NoError" in out3
+            if not apa[nm]:
+                raise Inconclusive("Apalache did not discharge the %s case of the view index's inductive invariant:\n%s" % (nm, out3[-800:]))
+        vdir = os.path.join(run, "apalache_variant")
+        os.makedirs(vdir, exist_ok=True)
+        src = open(os.path.join(adir, "ViewInductive.tla")).read()
+        if "clock' = Max2(clock, c)" not in src:
+            raise Inconclusive("ViewInductive.tla no longer has the clause the vacuity control edits")
+        open(os.path.join(vdir, "ViewInductive.tla"), "w").write(src.replace("clock' = Max2(clock, c)", "clock' = clock"))
+        rc4, out4 = sh(["apalache-mc", "check", "--init=IndInit", "--inv=IndInv", "--length=1", "--out-dir=" + os.path.join(run, "apalache_variant_out"),
+                        "ViewInductive.tla"], timeout=300, cwd=vdir)
+        if "The outcome is: Error" not in out4:
+            raise Inconclusive("vacuity control: the clock-blind variant of ViewInductive is no longer rejected")
+        res["mc"]["apalache_inductive_invariant"] = apa
+        res["mc"]["apalache_variant_rejected"] = True
         n, procs = (200, 6) if tier == "quick" else (2500, 12)
         scripts, seen, gen = [], set(), 0
 
